@@ -248,6 +248,26 @@ class Session:
                     check(isinstance(r, Raised), "decode:unrelated_not_rejected", f"[{vname}, persistent] unrelated request {raw[:80]!r} decoded to {r!r}")
                 elif isinstance(r, Raised) or [self.packet_tuple(p) for p in r] != want:
                     raise Violation("decode:persistent_decoder", f"[{vname}] persistent decoder, message {i}: got {r if isinstance(r, Raised) else [self.packet_tuple(p) for p in r]!r}, sent {want!r}; raw={raw[:200]!r}; cfg={self.cfg}"[:1800])
+        # (1b) ... a persistent decoder whose caller stops iterating as soon as it has the packets of a message
+        if not hasattr(self, "lazy"):
+            self.lazy = {}
+        for vname, kw in variants.items():
+            if vname not in self.lazy:
+                self.lazy[vname] = lib(c2.C2Http, self.bconfig, what=f"C2Http({vname})", **kw)
+            dec = self.lazy[vname]
+            for i in range(self.fed, len(self.messages)):
+                raw, exp = self.messages[i]
+                want = exp[vname]
+                if want == "ValueError" or not want:
+                    continue
+
+                def take(n=len(want)):
+                    it = dec.iter_recover_http(raw)
+                    return [next(it) for _ in range(n)]
+
+                r = lib(take, allow=(ValueError,), what=f"lazy C2Http[{vname}] (message {i})")
+                if isinstance(r, Raised) or [self.packet_tuple(p) for p in r] != want:
+                    raise Violation("decode:lazy_consumer", f"[{vname}] decoder whose caller takes exactly the packets of each message: message {i}: got {r if isinstance(r, Raised) else [self.packet_tuple(p) for p in r]!r}, sent {want!r}; cfg={self.cfg}"[:1800])
         self.fed = len(self.messages)
         # (2) ... and a fresh decoder per key variant fed the whole session so far
         for vname, kw in variants.items():
